@@ -40,7 +40,6 @@ func dataMsg(domain, seq, v uint32) []byte {
 	return common.RefMessage(0, seq, domain, set)
 }
 
-
 // Check_TwoClients: exactly-once, in per-connection order, connection count
 // back to zero, Stop returns, no goroutine of the process remains.
 func Check_TwoClients() {
